@@ -7,7 +7,7 @@
    admissible histories ([history_ok]: >= 2 factors, well-formed keys, erase(id, pf) with the
    inserting key or a non-stored id, strictly increasing id lists for refine). *)
 From Coq Require Import List Arith Bool Sorted.
-From AIT Require Import C20.Model C20.Spec C20.Proofs.
+From AIT Require Import C20.Model C20.Spec C20.Proofs C20.ProofsFaster.
 Import ListNotations.
 
 (* --- meaning of the spec's boolean filter --- *)
@@ -88,6 +88,17 @@ Theorem erasePf_orig_refuted :
 Proof. exact erasePf_orig_refuted_lemma. Qed.
 Print Assumptions erasePf_orig_refuted.
 
+(* --- FasterTrie (buckets by first key/value, swap-and-pop erase): after any admissible history of
+       insert / erase(id, key) / filter / size calls, filter(f) (f a prefix of the factor space) returns
+       exactly the ids of the stored entries compatible with f; no UB.  (The order of the ids is
+       unspecified; that no id is repeated is checked by the correspondence, not proved.) --- *)
+Theorem FasterTrie_filter_exact : forall F ops f, ft_history_ok F ops ->
+  pf_okb F (query_of_factors f 0) = true ->
+  exists t outs l, ft_history F ops = Ok (t, outs) /\ ft_filter t f = Ok l /\
+    forall id, In id l <-> exists pf, In (id, pf) (spec_store ops) /\ compatible (query_of_factors f 0) pf.
+Proof. exact FasterTrie_filter_exact_lemma. Qed.
+Print Assumptions FasterTrie_filter_exact.
+
 (* --- the hypotheses are satisfiable on non-trivial inputs --- *)
 Definition ex_hist : list op :=
   [OInsert ([0], [1]); OInsert ([1;2], [0;2]); OInsert ([], []); OInsert ([0;2], [1;0]);
@@ -106,3 +117,11 @@ Qed.
 Example ex_applyFilters :
   applyFilters [([1;4;9], [2;7]); ([2;3;9], [1;8]); ([], [0;1;2;5;9])] = ADone [1;2;9].
 Proof. vm_compute. reflexivity. Qed.
+
+Definition ex_fhist : list op :=
+  [OInsert ([0], [1]); OInsert ([1;2], [0;2]); OInsert ([0;2], [1;0]); OErasePf 0 ([0], [1]); OInsert ([2], [2]);
+   OFilterF [1;0] 0; OSize].
+
+Example ex_ft_history_ok : ft_history_ok [3;2;4] ex_fhist /\
+  (exists t outs, ft_history [3;2;4] ex_fhist = Ok (t, outs) /\ ft_filter t [1;0;2] = Ok [1;3]).
+Proof. split; [vm_compute; reflexivity|]. eexists. eexists. split; vm_compute; reflexivity. Qed.
